@@ -30,9 +30,10 @@ RULE = ('one evaluation = one seeded run: a single-client sequence of 10-120 map
         'against an ordered-dictionary model with no tolerated miss; non-trivial = at least 5 calls / a context switch; distinct = '
         'SHA-256 of program or event log')
 RULE += ' ' + "Sequences on an Index obtained from a FanoutCache / DjangoCache also contain the parent's own clear / expire / cull / evict / set / delete calls."
+RULE += ' ' + "The parent's calls include looking the same name up again; in 40 % of the runs with a parent the name holds ':' '*' '?' '|' '/' and sibling objects under colliding spellings hold marker items."
 ASSUMPTIONS = ['Index.setdefault is checked as the documented get/add loop (insert attempts + final lookup), not as one indivisible step',
                'key alphabet avoids pairs that Python treats as equal but diskcache documents as distinct (True/1, 2**63/2.0**63)']
-PROBES = ('fifo_churn', 'own_temporary_directory', 'lifecycle', 'from_fanout', 'from_django', 'parent_calls', 'lock_wait', 'file_backed_replace')
+PROBES = ('fifo_churn', 'own_temporary_directory', 'lifecycle', 'from_fanout', 'from_django', 'parent_calls', 'named_with_special_characters', 'lock_wait', 'file_backed_replace')
 TECHNIQUE = 'deterministic simulation + differential testing against collections.OrderedDict; seeded schedules + linearizability (no miss tolerance) for concurrent use'
 LEVEL_TEXT = ('seeded exploration of mapping-call sequences with lifecycle events against OrderedDict, and of 2-3 client '
               'interleavings decided by a linearizability search in which a lookup of a continuously present key may never miss.')
@@ -126,14 +127,16 @@ def gen_case(seed, tier):
            # the parent an Index is obtained from may have been built with its own eviction settings: an Index never evicts
            'parent_opts': rng.choice(({}, {}, {'eviction_policy': 'least-recently-used', 'size_limit': 2 ** 16, 'cull_limit': 10},
                                       {'eviction_policy': 'least-frequently-used', 'cull_limit': 2, 'statistics': 1, 'tag_index': 1}))}
+    if cfg['origin'] in ('fanout', 'django') and rng.random() < 0.4:
+        cfg['subname'] = rng.choice(('jobs:eu', 'q*1', 'a?b', 'x|y', 'ns:a/b:c'))
     if cfg['origin'] in ('fanout', 'django') and rng.random() < 0.6:
         # the parent goes about its own business meanwhile: its keys, its housekeeping - none of it concerns what it handed out
         for _ in range(rng.randint(1, 4)):
-            prog.insert(rng.randint(0, len(prog)), {'op': 'parent', 'call': rng.choice(('clear', 'clear', 'expire', 'cull', 'evict', 'set', 'delete'))})
+            prog.insert(rng.randint(0, len(prog)), {'op': 'parent', 'call': rng.choice(('clear', 'clear', 'expire', 'cull', 'evict', 'set', 'delete', 'lookup', 'lookup'))})
     return {'seed': seed, 'cfg': cfg, 'prog': prog}
 
 
-def parent_call(parent, call):
+def parent_call(parent, call, name='ix'):
     if call == 'set':
         if type(parent).__name__ == 'DjangoCache':
             parent.set('pk', 'parent value', timeout=30, tag='t')
@@ -143,6 +146,9 @@ def parent_call(parent, call):
         parent.delete('pk')
     elif call == 'evict':
         parent.evict('t')
+    elif call == 'lookup':
+        # another part of the program looks the same named object up again (for a Deque: with another maxlen in mind)
+        parent.index(name)
     else:
         getattr(parent, call)()
 
@@ -291,15 +297,19 @@ def run_seq(case):
     try:
         dc = world.dc
         parent = None
+        # the name under which the parent keeps the object: characters that mean something to file systems, URIs or patterns are
+        # part of the name; objects whose names differ only in such characters are different objects
+        subname = cfg.get('subname', 'ix')
+        siblings = {}
         if cfg['origin'] == 'fanout':
             parent = dc.FanoutCache(world.path('f'), shards=2, **cfg.get('parent_opts', {}))
-            ix = parent.index('ix')
+            ix = parent.index(subname)
             probes['from_fanout'] = 1
         elif cfg['origin'] == 'django':
             from .. import seams
             mod = seams.install_django()
             parent = mod.DjangoCache(world.path('dj'), {'SHARDS': 2, 'OPTIONS': dict(cfg.get('parent_opts', {}))})
-            ix = parent.index('ix')
+            ix = parent.index(subname)
             probes['from_django'] = 1
         elif cfg['origin'] == 'temp':
             # no directory given: the object makes its own, which then belongs to everything that refers to it by path
@@ -308,6 +318,12 @@ def run_seq(case):
         else:
             ix = dc.Index(world.path('ix'))
         directory = ix.directory
+        if parent is not None and subname != 'ix':
+            for alias in sorted(({subname.replace(c, '_') for c in ':*?"<>|'} | {subname.replace(':', '*')}) - {subname}):
+                sib = parent.index(alias)
+                sib['sibling'] = alias
+                siblings[alias] = sib
+            probes['named_with_special_characters'] = 1
         ix.cache.reset('disk_min_file_size', cfg['mfs'])
         if case['seed'] % 3 == 0:
             ix.cache.reset('size_limit', 1000)
@@ -325,7 +341,7 @@ def run_seq(case):
                 probes['lifecycle'] = probes.get('lifecycle', 0) + 1
                 got = want = None
             elif name == 'parent':
-                parent_call(parent, op['call'])
+                parent_call(parent, op['call'], subname)
                 probes['parent_calls'] = probes.get('parent_calls', 0) + 1
                 got = want = None
             elif name == 'pickle':
@@ -353,6 +369,10 @@ def run_seq(case):
             if problems:
                 violations.append({'rule': 'C12/audit', 'sig': ','.join(sorted({p[0] for p in problems})), 'detail': str(problems[:3])})
         ix.cache.close()
+        for alias, sib in sorted(siblings.items()):
+            if list(sib.items()) != [('sibling', alias)] and not violations:
+                violations.append({'rule': 'C12/named-objects-share-contents', 'sig': 'alias',
+                                   'detail': 'the index named %r holds %r after work on the index named %r' % (alias, list(sib.items())[:5], subname)})
         if parent is not None:
             parent.close()
     finally:
